@@ -191,7 +191,8 @@ def source_gate():
             depth = 0
             incomment = 0
             for i, line in enumerate(open(path), 1):
-                code = re.sub(r"\(\*.*?\*\)", "", line)
+                code = re.sub(r'"[^"]*"', '""', line)          # string literals (generated tables quote source text)
+                code = re.sub(r"\(\*.*?\*\)", "", code)
                 if "(*" in code and "*)" not in code:
                     incomment += 1
                     code = code[:code.index("(*")]
